@@ -3,10 +3,10 @@
 package props
 
 import (
-	"strconv"
 	"fmt"
 	"math/rand"
 	"sort"
+	"strconv"
 	"strings"
 )
 
